@@ -1,0 +1,37 @@
+//go:build verif
+
+package client
+
+import "github.com/arm-doe/sts"
+
+// Exports for the verification harness in /verif (build tag "verif" only).
+
+// VerifNewBroker builds a Broker that has not been started: only the tag table that
+// Start() derives from Conf.Tags is initialised (same statements as in Start), so that the
+// scan-time functions can be called directly.
+func VerifNewBroker(conf *Conf) *Broker {
+	broker := &Broker{Conf: conf}
+	broker.tagMap = make(map[string]*FileTag)
+	broker.cleanAll = true
+	for _, tag := range broker.Conf.Tags {
+		broker.tagMap[tag.Name] = tag
+		broker.cleanAll = broker.cleanAll && tag.Delete
+		broker.cleanSome = broker.cleanSome || tag.Delete
+	}
+	return broker
+}
+
+// VerifScan exposes scan().
+func (broker *Broker) VerifScan() []sts.Hashed {
+	return broker.scan()
+}
+
+// VerifIncludeScannedFile exposes includeScannedFile.
+func (broker *Broker) VerifIncludeScannedFile(file sts.File) bool {
+	return broker.includeScannedFile(file)
+}
+
+// VerifCanDelete exposes canDelete.
+func (broker *Broker) VerifCanDelete(file sts.File) bool {
+	return broker.canDelete(file)
+}
